@@ -29,8 +29,8 @@ def replay(job, res, work, inc):
     # the entry is selected by name: a tiny main is linked through -DVERIF_NATIVE in verif.h (verif_main)
     entry = viol['msg'].split(']')[0].lstrip('[') if viol['msg'].startswith('[') else job['entry'].split(',')[0]
     env = dict(os.environ, VERIF_INPUTS=inp, VERIF_ENTRY=entry, ASAN_OPTIONS='detect_leaks=0:abort_on_error=0', UBSAN_OPTIONS='print_stacktrace=1')
-    try: r = subprocess.run([exe], stdout=subprocess.PIPE, stderr=subprocess.STDOUT, text=True, env=env, timeout=120, errors='replace')
-    except subprocess.TimeoutExpired: return ('reproduced' if viol['kind'] == 'bound' else 'native-timeout'), 'native run timed out'
+    try: r = subprocess.run([exe], stdout=subprocess.PIPE, stderr=subprocess.STDOUT, text=True, env=env, timeout=(30 if viol['kind'] == 'hang' else 120), errors='replace')
+    except subprocess.TimeoutExpired: return ('reproduced' if viol['kind'] in ('bound', 'hang') else 'native-timeout'), 'native run did not terminate within the time limit'
     out = r.stdout
     kind = viol['kind']
     if r.returncode == 3 and kind == 'assert': return 'reproduced', out
